@@ -17,6 +17,7 @@ import (
 	"path/filepath"
 	"runtime"
 	"sort"
+	"strconv"
 	"strings"
 	"sync"
 
@@ -351,12 +352,11 @@ func c11(args []string) error {
 		return err
 	}
 	nh := len(hists)
-	workers := runtime.NumCPU()
-	if workers > 12 {
-		workers = 12
-	}
-	if workers < 2 {
-		workers = 2
+	// measured: goroutines inside one process make the replay slower (kernel-side contention on the
+	// mmap / open paths of one address space); the runner shards over processes instead. VERIF_WORKERS overrides.
+	workers := 1
+	if n, _ := strconv.Atoi(os.Getenv("VERIF_WORKERS")); n > 0 && n <= runtime.NumCPU() {
+		workers = n
 	}
 	jobs := make(chan int)
 	var wg sync.WaitGroup
